@@ -43,7 +43,7 @@ func (ev *EvalCtx) fail(format string, args ...any) {
 
 func (fr *Frame) evalCtx(cur, old *State) *EvalCtx {
 	n := 0
-	return &EvalCtx{fc: fr.fc, fr: fr, cur: cur, old: old, binds: map[string]TV{}, pkg: fr.fn.Pkg.Pkg, qn: &n}
+	return &EvalCtx{fc: fr.fc, fr: fr, cur: cur, old: old, binds: map[string]TV{}, pkg: fnTypesPkg(fr.fn), qn: &n}
 }
 
 func (ev *EvalCtx) with(binds map[string]TV) *EvalCtx {
@@ -74,6 +74,42 @@ func (ev *EvalCtx) evalInt(e Expr) *Term {
 	return tv.V.T
 }
 
+// resolveGeneric finds the generic named type pkg.G (or G in the current package).
+func (ev *EvalCtx) resolveGeneric(name string) types.Type {
+	pkgName, tn := "", name
+	if k := strings.LastIndex(name, "."); k > 0 {
+		pkgName, tn = name[:k], name[k+1:]
+	}
+	for _, p := range ev.fc.eng.allTypesPkgs() {
+		if (pkgName == "" && p == ev.pkg) || (pkgName != "" && (p.Name() == pkgName || p.Path() == pkgName)) {
+			if obj, ok := p.Scope().Lookup(tn).(*types.TypeName); ok {
+				if nt, ok := obj.Type().(*types.Named); ok && nt.TypeParams().Len() > 0 {
+					return nt
+				}
+			}
+		}
+	}
+	return nil
+}
+
+// tryResolveType: like resolveType, but a parameter declared with a generic type that cannot be named without
+// instantiation (`f *Future`) takes the type of the actual argument.
+func (ev *EvalCtx) tryResolveType(s string, actual types.Type) (t types.Type) {
+	if actual == nil {
+		return ev.resolveType(s)
+	}
+	defer func() {
+		if r := recover(); r != nil {
+			if _, ok := r.(evalErr); ok {
+				t = actual
+				return
+			}
+			panic(r)
+		}
+	}()
+	return ev.resolveType(s)
+}
+
 func (ev *EvalCtx) resolveType(s string) types.Type {
 	s = strings.TrimSpace(s)
 	switch s {
@@ -81,6 +117,30 @@ func (ev *EvalCtx) resolveType(s string) types.Type {
 		return types.Typ[types.Int]
 	case "mathint":
 		return types.Typ[types.UntypedInt]
+	}
+	// instantiation of a generic type: *pkg.G[pkg.A]
+	if strings.HasSuffix(s, "]") && !strings.HasPrefix(s, "[") && !strings.HasPrefix(s, "map[") {
+		if k := strings.Index(s, "["); k > 0 && !strings.HasPrefix(s[k:], "[]") {
+			head, arg := s[:k], s[k+1:len(s)-1]
+			pre := ""
+			for strings.HasPrefix(head, "*") {
+				pre += "*"
+				head = head[1:]
+			}
+			gt := ev.resolveGeneric(head)
+			if gt != nil {
+				at := ev.resolveType(arg)
+				inst, err := types.Instantiate(nil, gt, []types.Type{at}, false)
+				if err != nil {
+					ev.fail("cannot instantiate %s: %v", s, err)
+				}
+				var t types.Type = inst
+				for range pre {
+					t = types.NewPointer(t)
+				}
+				return t
+			}
+		}
 	}
 	tvv, err := types.Eval(ev.fc.eng.fset, ev.pkg, token.NoPos, s)
 	if err != nil {
@@ -983,7 +1043,7 @@ func (ev *EvalCtx) evalCall(e ECall) TV {
 		}
 		for i, pp := range p.PureParams {
 			a := ev.eval(e.Args[i])
-			pt := sub.resolveType(pp.Type)
+			pt := sub.tryResolveType(pp.Type, a.T)
 			if a.V.T == nil && a.V.Fs == nil && a.T == nil { // nil literal
 				s, _ := leafSort(pt)
 				a = TV{V: scalar(fc.zero(s))}
